@@ -186,6 +186,21 @@ func main() {
 					// a launch that fails at exec: the child must be reaped
 					r := &forkexec.Runner{Args: []string{"/nonexistent-" + token}, Env: []string{}}
 					r.Start()
+				case "destroy_broken", "destroy_dead":
+					// an environment whose connection is already lost (a request too large for one message / the init killed from outside)
+					// is destroyed: nothing of it may stay behind, not even as a zombie
+					e2, err := hx.NewEnv(scratch, nil)
+					if err != nil {
+						panic(err)
+					}
+					if op["kind"] == "destroy_broken" {
+						e2.Execve(ctx, container.ExecveParam{Args: []string{"/bin/true"}, Env: []string{"X=" + strings.Repeat("x", 40000)}})
+					} else {
+						syscall.Kill(container.InitPidVerif(e2), syscall.SIGKILL)
+						time.Sleep(20 * time.Millisecond)
+						e2.Ping()
+					}
+					e2.Destroy()
 				case "idmapfail":
 					// a launch whose id map the kernel refuses (an entry of size 0 / overlapping ranges): the launcher gives up cleanly
 					r := &forkexec.Runner{Args: []string{"/bin/true"}, Env: []string{}, CloneFlags: unix.CLONE_NEWUSER}
